@@ -460,7 +460,7 @@ func Exec(t Target, w *World) *Result {
 		defer func() {
 			if r := recover(); r != nil {
 				if ep, ok := r.(simrt.ExitPanic); ok {
-					res.Exit = ep.Code
+					res.Exit = ep.Code & 0xff // what the parent process sees: the low 8 bits
 					return
 				}
 				res.Exit = -1
